@@ -428,13 +428,16 @@ func TestC06(t *testing.T) {
 					c.Note("error ping code=%d about %s from %s", code, h.dst, reporter.kind)
 				}
 				if d := core.OneOf(c, "chain.time", 0, 11*time.Second, 21*time.Second); d > 0 {
+					// (Always with a cleaner tick, as in the "time passes" event: ICMP
+					// entries are older than 10 s then and go, in the router and in the
+					// reference. Ageing without a tick would let a later, shorter
+					// "time passes" event remove them unnoticed by the reference -
+					// a false alarm of the first version, seen in the thorough tier.)
 					V.Rtr.VerifAgeConnStates(d)
-					if c.Bool("chain.cleaner") {
-						V.Rtr.VerifCleanConnStates()
-						for key := range tracked {
-							if parts := strings.Split(key, "|"); len(parts) == 4 && (parts[1] == "1" || parts[1] == "58") {
-								delete(tracked, key)
-							}
+					V.Rtr.VerifCleanConnStates()
+					for key := range tracked {
+						if parts := strings.Split(key, "|"); len(parts) == 4 && (parts[1] == "1" || parts[1] == "58") {
+							delete(tracked, key)
 						}
 					}
 				}
